@@ -13,7 +13,7 @@ import z3
 
 from .values import (Unsupported, EngineError, is_z3, is_boolish, is_intish, is_realish,
                      is_numish, concretize, simp, Z, ZB, ZR, EnumV, Opt, SymList, EmptyList,
-                     SymSet, Obj, ActionV, ClassRef, TypeV, FuncV, RangeV, DictV, ObjList, RowRef, PartialV, ListLit, SymMap2, INF, Inf,
+                     SymSet, Obj, ActionV, ClassRef, TypeV, FuncV, RangeV, DictV, ObjList, RowRef, PartialV, ListLit, SymMap2, NdArray3, INF, Inf,
                      STORAGE_CODES,
                      STEPTYPE)
 from .source import AnchorError
@@ -295,6 +295,10 @@ class Engine:
             return None, []
         if ty == "any":
             return z3.Int(n), []
+        if ty == "nd3":
+            srt = z3.ArraySort(z3.IntSort(), z3.ArraySort(z3.IntSort(), z3.IntSort()))
+            d0, d1 = z3.Int(n + ".d0"), z3.Int(n + ".d1")
+            return NdArray3([z3.Const("%s.c%d" % (n, i), srt) for i in range(3)], d0, d1), [d0 >= 0, d1 >= 0]
         if ty == "map2":
             return SymMap2(z3.Array(n + ".present", z3.IntSort(), z3.IntSort(), z3.BoolSort()),
                            z3.Array(n + ".val", z3.IntSort(), z3.IntSort(), z3.IntSort())), []
@@ -342,6 +346,10 @@ class Engine:
             return v, []
         if isinstance(v, SymMap2):
             return self.fresh("map2", hint)
+        if isinstance(v, NdArray3):
+            n0 = "%s!%d" % (hint, next(self.fresh_id))
+            srt = z3.ArraySort(z3.IntSort(), z3.ArraySort(z3.IntSort(), z3.IntSort()))
+            return NdArray3([z3.Const("%s.c%d" % (n0, i), srt) for i in range(3)], v.d0, v.d1), []
         if isinstance(v, ListLit):
             etypes = [self.type_of_value(v[0])]
             x, cs = self.fresh(("list", etypes), hint)
@@ -613,6 +621,8 @@ class Engine:
                 return simp(za % zb)
             return simp(z3.If(zb > 0, za % zb, -((-za) % (-zb))))
         if isinstance(op, ast.Pow):
+            if isinstance(a, int) and isinstance(b, int) and 0 <= b <= 4096:
+                return a ** b
             if isinstance(b, int) and 0 <= b <= 4:
                 r = 1
                 for _ in range(b):
@@ -780,6 +790,8 @@ class Engine:
             return ClassRef(self.reg.class_aliases[name])
         if name == "warnings":
             return ClassRef("warnings")
+        if name == "np":
+            return ClassRef("np")
         fi = st.frames[-1].func or self.fi
         consts = self.index.module_consts.get(fi.module, {})
         if name in consts and not st.spec_mode:
@@ -822,6 +834,8 @@ class Engine:
                 return STEPTYPE[attr]
             if base.name == "sys" and attr == "maxsize":
                 return MAXSIZE
+            if base.name == "np" and attr in ("int64", "zeros"):
+                return ClassRef("np." + attr)
             raise Unsupported("attribute %s.%s" % (base.name, attr))
         if isinstance(base, ActionV):
             names = ACTION_KINDS[base.kind]
@@ -830,6 +844,8 @@ class Engine:
             if attr == "args":
                 return tuple(base.args)
             raise Unsupported("action attribute " + attr)
+        if isinstance(base, NdArray3) and attr in ("d0", "d1"):
+            return getattr(base, attr)
         if isinstance(base, (SymList, EmptyList, SymSet, ListLit)):
             return ("listmethod", base, attr, node)
         raise Unsupported("attribute %s on %s" % (attr, type(base).__name__))
@@ -1051,8 +1067,29 @@ class Engine:
             raise Unsupported("comprehension element type")
         return SymList([arr], n_items, [ety], tup=False)
 
+    def nd_index(self, arr, sl, st, node):
+        """(a, b, k) / (a, b) read of an NdArray3; negative indices would wrap in numpy and are
+        excluded by the bounds obligation."""
+        elts = sl.elts if isinstance(sl, ast.Tuple) else [sl]
+        if len(elts) not in (2, 3) or any(isinstance(e, ast.Slice) for e in elts):
+            raise Unsupported("array read shape")
+        a = self.ev(elts[0], st)
+        b = self.ev(elts[1], st)
+        self.oblige(st, And(self.cmp(ast.GtE(), a, 0), self.cmp(ast.Lt(), a, arr.d0),
+                            self.cmp(ast.GtE(), b, 0), self.cmp(ast.Lt(), b, arr.d1)),
+                    "array_index_in_bounds", node)
+        cell = [simp(z3.Select(z3.Select(c, Z(a)), Z(b))) for c in arr.comps]
+        if len(elts) == 2:
+            return tuple(cell)
+        k = self.ev(elts[2], st)
+        if not isinstance(k, int) or not (0 <= k <= 2):
+            raise Unsupported("array last-axis index")
+        return cell[k]
+
     def ev_Subscript(self, n, st):
         base = self.ev(n.value, st)
+        if isinstance(base, NdArray3):
+            return self.nd_index(base, n.slice, st, n)
         if isinstance(n.slice, ast.Slice):
             sl = n.slice
             if isinstance(base, tuple) and sl.step is None:
@@ -1204,6 +1241,14 @@ class Engine:
             base = self.ev(f.value, st)
             if isinstance(base, ClassRef) and base.name == "warnings":
                 return None       # warnings.warn(...): no state effect (dropped, DESIGN.md 3.1)
+            if isinstance(base, ClassRef) and base.name == "np" and f.attr == "zeros":
+                shape = self.ev(n.args[0], st)
+                if not (isinstance(shape, tuple) and len(shape) == 3 and shape[2] == 3):
+                    raise Unsupported("np.zeros of a shape other than (d0, d1, 3)")
+                zero = z3.K(z3.IntSort(), z3.K(z3.IntSort(), z3.IntVal(0)))
+                self.oblige(st, And(self.cmp(ast.GtE(), shape[0], 0), self.cmp(ast.GtE(), shape[1], 0)),
+                            "array_dimensions_nonnegative", n)
+                return NdArray3([zero, zero, zero], shape[0], shape[1])
             if isinstance(base, RowRef):
                 target = None
             else:
